@@ -203,6 +203,12 @@ type Engine struct {
 	axioms      map[string]bool
 }
 
+// extraIntrinsics lets per-property files (intr_*.go) register intrinsics from an init function.
+var extraIntrinsics []func(e *Engine)
+
+// extraExecutable names further packages whose SSA bodies are executed rather than stubbed.
+var extraExecutable = map[string]bool{}
+
 type intrinsic func(e *Engine, st *State, call *ssa.CallCommon, args []Value) Value
 
 func NewEngine(l *Loaded, s *Solver) *Engine {
@@ -210,6 +216,9 @@ func NewEngine(l *Loaded, s *Solver) *Engine {
 		allocNames: map[string]int{}, rpoCache: map[*ssa.Function]map[*ssa.BasicBlock]int{}, joinFailWhy: map[string]int{}, Params: map[string]int64{}, KnownOpen: map[string]bool{}, MapOrders: "insertion", ufApps: map[string]*Term{}}
 	e.intr = map[string]intrinsic{}
 	registerIntrinsics(e)
+	for _, f := range extraIntrinsics {
+		f(e)
+	}
 	return e
 }
 
